@@ -958,7 +958,18 @@ def _gait_init_out(res, ex):
 
 _GAIT = "env/unitree/g1/gait.py"
 
+# ------------------------------------------------------------------------------------------------ C14: membership tests (per component)
+_SP_PRIMS = {"try_cast": Prim(lambda ex, n, a, k: a[0])}
+
 KERNELS = {
+    "C14": [Kernel("discrete_contains", "space/discrete.py", "Discrete", "contains", lambda: {"self": Obj({"n": Z("n")}, "Discrete"), "x": R("x")},
+                   "(n : Z) (x : Q)", lambda res, ex: [("value", "bool", term_of(res))], prims=_SP_PRIMS, carrier="Q"),
+            Kernel("box_contains", "space/box.py", "Box", "contains",
+                   lambda: {"self": Obj({"low": R("lo"), "high": R("hi"), "shape": Static(())}, "Box"), "x": R("x")},
+                   "(lo hi x : Q)", lambda res, ex: [("value", "bool", term_of(res))], prims=_SP_PRIMS, carrier="Q"),
+            Kernel("multidiscrete_contains", "space/multi_discrete.py", "MultiDiscrete", "contains",
+                   lambda: {"self": Obj({"nvec": Z("n"), "shape": Static(())}, "MultiDiscrete"), "x": R("x")},
+                   "(n : Z) (x : Q)", lambda res, ex: [("value", "bool", term_of(res))], prims=_SP_PRIMS, carrier="Q")],
     "C09": [Kernel("batch_indices", "buffer/base_buffer.py", "AbstractBuffer", "batch_indices",
                    lambda: {"self": Obj({"shape": (Z("(Z.of_nat (length perm))"),)}, "buffer"), "batch_size": Z("(Z.of_nat B)"), "key": K("k"),
                             "@jr.permutation": Prim(lambda ex, n, a, k: Vec.base("perm", "Z") if len(a) == 2 and not k and isinstance(a[0], Sc) and a[0].ty == "K"
@@ -1117,7 +1128,7 @@ def translate(pid):
 
 HEADER = """(* GENERATED by harness/translate/kernels.py from the lerax source.  DO NOT EDIT: the {pid} check regenerates this
    file on every run and re-checks coq/link/{pid}_link.v against it. *)
-From Coq Require Import Reals List ZArith QArith Qminmax Bool.
+From Coq Require Import Reals List ZArith QArith Qminmax Qround Bool.
 From Lerax Require Import KBase{imports}.
 Import ListNotations.
 """
@@ -1134,7 +1145,7 @@ def coq_text(pid, imports=()):
     return "\n".join(parts)
 
 
-IMPORTS = {"C09": ("Env",), "C10": ("Env",), "C19": ("Logging",), "C06": ("Env", "Replay"), "C01": ("Env",), "C13": ("Env",), "C04": ("Env", "OnPolicy"), "C05": ("Env", "OnPolicy", "Replay", "OffPolicy"), "C20": ("Gait",), "C11": ("Env", "Observers"), "C12": ("Env", "OnPolicy")}
+IMPORTS = {"C14": ("Spaces",), "C09": ("Env",), "C10": ("Env",), "C19": ("Logging",), "C06": ("Env", "Replay"), "C01": ("Env",), "C13": ("Env",), "C04": ("Env", "OnPolicy"), "C05": ("Env", "OnPolicy", "Replay", "OffPolicy"), "C20": ("Gait",), "C11": ("Env", "Observers"), "C12": ("Env", "OnPolicy")}
 
 
 def generate(pid, coq_dir: Path):
